@@ -137,6 +137,7 @@ class FunctionDecl:
 
     def __init__(self, code, allow_kwargs=True, **exception_kwargs):
         self.code = code
+        self.exception_kwargs = exception_kwargs
         expr = pyparser.parse(code, "exec", **exception_kwargs)
 
         f = pyparser.ParseFunc(self, **exception_kwargs)
@@ -162,6 +163,18 @@ class FunctionDecl:
         instead (assuming locals with the same names as the arguments exist).
         """
 
+        try:
+            return self._get_argument_expressions(as_call)
+        except RecursionError as e:
+            # a default value nested deeper than the expression generator
+            # can recurse; report it like pyparser.visit() does
+            raise exceptions.SyntaxException(
+                "(RecursionError) Python code is nested too deeply to be "
+                "analysed",
+                **self.exception_kwargs,
+            ) from e
+
+    def _get_argument_expressions(self, as_call):
         namedecls = []
 
         # Build in reverse order, since defaults and slurpy args come last
